@@ -12,11 +12,17 @@ def member(payload, tier, seed):
     return constraintchecks.offered_member(payload, tier, seed)
 
 
+def sibling(desc, tier, seed):
+    return constraintchecks.sibling_member(desc, tier, seed)
+
+
 def run(tier='quick', seed=0):
     members = TYPES + corpus(FAMILIES, tier)
     results = harness.run_pool('bounded.drivers.C13', 'member', members, tier, seed)
+    # graphs with a constraint and at least two further free choices: a copy gets a second constraint
+    results += harness.run_pool('bounded.drivers.C13', 'sibling', corpus(['conpart'], tier) + [d for d in corpus(['sel'], 'quick') if len(d.choices) >= 2][:8], tier, seed)
     return harness.aggregate(
         results,
         rule='one evaluation = one clause on one (index row | taken choice/option/sibling option | graph x encoder); non-trivial = distinct such case',
-        bound='index functions: every row with <=3 columns over -1..3 for the 4 constraint types (both all-permanent flags); removed options for 2-3 choices x 2-4 options x every taken choice/option; offered architectures: ' + '; '.join(BOUND_TEXT[f] for f in FAMILIES) + ' x both encoders',
+        bound='index functions: every row with <=3 columns over -1..3 for the 4 constraint types (both all-permanent flags); removed options for 2-3 choices x 2-4 options x every taken choice/option; offered architectures: ' + '; '.join(BOUND_TEXT[f] for f in FAMILIES) + ' x both encoders; CONPART and 8 selection graphs: a copy is constrained over two free choices (3 types), the original still offers its reference set',
         assumptions=['documented relation: LINKED equal, PERMUTATION pairwise different, UNORDERED non-decreasing, UNORDERED_NOREPL strictly increasing, on the choices active together'])
